@@ -171,6 +171,10 @@ fn compare_events(left: &[Event], right: &[Event]) -> io::Result<()> {
     Ok(())
 }
 
+#[cfg(kani)]
+#[path = "/verif/harness/rip-log/lib.rs"]
+mod verif_kani;
+
 #[cfg(test)]
 mod tests {
     use super::*;
